@@ -55,7 +55,7 @@ package reporting
 //@ func NewReporter
 //@   props C19 C10 C17
 //@   requires pass != nil
-//@   ensures reporterOK(result) && result.pass == pass && result.ignoreSet == ignoreSet
+//@   ensures reporterOK(result) && result.pass == pass && result.ignoreSet == ignoreSet && fresh(result.lineCache)
 //@   fresh
 //@   assigns nothing
 
@@ -79,3 +79,59 @@ package reporting
 //@   loop 1 invariant start <= i && len(result.content) == i - start && len(result.lineNumbers) == i - start
 //@   loop 1 invariant forall j int :: 0 <= j && j < len(result.lineNumbers) ==> result.lineNumbers[j] == start + j + 1
 //@   loop 1 invariant end < len(lines) && reporterOK(r) && (i <= end + 1 || i == start)
+
+// ---- C17 / C08: what is emitted ---------------------------------------------------------------------------------
+// A diagnostic is emitted for a violation iff the suppression set does not cover (code, position); the code looked
+// up is the code shown (both are violation.GetCode()), the position is the violation's position.
+//@ func Reporter.formatPrettyError
+//@   props C17 C19 C10
+//@   requires reporterOK(r) && violation != nil
+//@   assigns r.lineCache[all]
+//@   ensures reporterOK(r) && r.pass == old(r.pass) && r.ignoreSet == old(r.ignoreSet)
+
+//@ func Reporter.ReportViolation
+//@   props C17 C08 C07 C10
+//@   requires reporterOK(r) && violation != nil && (r.ignoreSet != nil ==> isetInv(r.ignoreSet))
+//@   assigns r.lineCache[all], r.pass.$reports
+//@   let hidden = supp(r.ignoreSet, violation.GetCode(), violation.GetPos())
+//@   ensures reporterOK(r) && r.pass == old(r.pass) && r.ignoreSet == old(r.ignoreSet)
+//@   ensures hidden ==> r.pass.$reports == old(r.pass.$reports)
+//@   ensures !hidden ==> len(r.pass.$reports) == old(len(r.pass.$reports)) + 1 && r.pass.$reports[old(len(r.pass.$reports))].Pos == violation.GetPos() && (forall k int :: 0 <= k && k < old(len(r.pass.$reports)) ==> r.pass.$reports[k] == old(r.pass.$reports)[k])
+
+// number of violations among the first m that are not suppressed
+//@ pure func shown(ign *util.IgnoreSet, vs []Violation, m int) rec int = m <= 0 ? 0 : (shown(ign, vs, m-1) + (supp(ign, vs[m-1].GetCode(), vs[m-1].GetPos()) ? 0 : 1))
+
+//@ func Reporter.ReportViolations
+//@   props C17 C08 C10
+//@   requires reporterOK(r) && (r.ignoreSet != nil ==> isetInv(r.ignoreSet)) && (forall k int :: 0 <= k && k < len(violations) ==> violations[k] != nil)
+//@   assigns r.lineCache[all], r.pass.$reports
+//@   ensures reporterOK(r) && r.pass == old(r.pass) && r.ignoreSet == old(r.ignoreSet)
+//@   ensures len(r.pass.$reports) == old(len(r.pass.$reports)) + shown(r.ignoreSet, violations, len(violations))
+//@   ensures forall k int :: 0 <= k && k < old(len(r.pass.$reports)) ==> r.pass.$reports[k] == old(r.pass.$reports)[k]
+//@   loop 1 invariant reporterOK(r) && r.pass == old(r.pass) && r.ignoreSet == old(r.ignoreSet)
+//@   loop 1 invariant 0 <= shown(r.ignoreSet, violations, $i)
+//@   loop 1 invariant len(r.pass.$reports) == old(len(r.pass.$reports)) + shown(r.ignoreSet, violations, $i)
+//@   loop 1 invariant forall k int :: 0 <= k && k < old(len(r.pass.$reports)) ==> r.pass.$reports[k] == old(r.pass.$reports)[k]
+
+// Dynamic dispatch on the Violation interface: the seven implementations (each proved against its own contract in
+// its package) - the interface contract is their case distinction on the dynamic type.
+//@ func Violation.GetCode
+//@   trusted
+//@   ensures dyntype(recv) == tagof(immutable.ImmutableViolation) ==> result == unbox(recv, immutable.ImmutableViolation).Code
+//@   ensures dyntype(recv) == tagof(constructor.ConstructorViolation) ==> result == unbox(recv, constructor.ConstructorViolation).Code
+//@   ensures dyntype(recv) == tagof(testonly.TestOnlyViolation) ==> result == unbox(recv, testonly.TestOnlyViolation).Code
+//@   ensures dyntype(recv) == tagof(packageonly.PackageOnlyViolation) ==> result == unbox(recv, packageonly.PackageOnlyViolation).Code
+//@   ensures dyntype(recv) == tagof(implements.MissingPackageReport) ==> result == "IMPL01"
+//@   ensures dyntype(recv) == tagof(implements.MissingInterfaceReport) ==> result == "IMPL02"
+//@   ensures dyntype(recv) == tagof(implements.MissingMethodsReport) ==> result == "IMPL03"
+//@   assigns nothing
+//@ func Violation.GetPos
+//@   trusted
+//@   ensures dyntype(recv) == tagof(immutable.ImmutableViolation) ==> result == unbox(recv, immutable.ImmutableViolation).Pos
+//@   ensures dyntype(recv) == tagof(constructor.ConstructorViolation) ==> result == unbox(recv, constructor.ConstructorViolation).Pos
+//@   ensures dyntype(recv) == tagof(testonly.TestOnlyViolation) ==> result == unbox(recv, testonly.TestOnlyViolation).Pos
+//@   ensures dyntype(recv) == tagof(packageonly.PackageOnlyViolation) ==> result == unbox(recv, packageonly.PackageOnlyViolation).Pos
+//@   ensures dyntype(recv) == tagof(implements.MissingPackageReport) ==> result == unbox(recv, implements.MissingPackageReport).Pos
+//@   ensures dyntype(recv) == tagof(implements.MissingInterfaceReport) ==> result == unbox(recv, implements.MissingInterfaceReport).Pos
+//@   ensures dyntype(recv) == tagof(implements.MissingMethodsReport) ==> result == unbox(recv, implements.MissingMethodsReport).Pos
+//@   assigns nothing
